@@ -255,7 +255,10 @@ def run(ctx):
             except Exception:
                 pass
         # ---- every CLI entry point on a multi-chunk file and on small files
-        mtree = {"big.bin": open(big, "rb").read(), "empty.bin": b"", "one.bin": b"x", "s/two.bin": b"yy"}
+        # (names with $NAME / ~ while such a variable is set and the expanded name exists as well: a file name is a file name)
+        os.environ["SHOT"] = "A001"
+        mtree = {"big.bin": open(big, "rb").read(), "empty.bin": b"", "one.bin": b"x", "s/two.bin": b"yy", "clip_$SHOT.mov": b"the file with the dollar name",
+                 "clip_A001.mov": b"its namesake after expansion", "s/~note.txt": b"tilde", "s/${SHOT}.txt": b"braces", "s/A001.txt": b"expanded braces"}
         r2 = os.path.join(d, "cli")
         os.makedirs(r2)
         rt.mk(r2, mtree)
@@ -314,7 +317,7 @@ def run(ctx):
                     if f"= {rt.digest(f, pvb)}" not in x.out:
                         fails.append({"what": f"`hash -h {f} {pv}` ({len(pvb)} bytes, stat size 0) prints {x.out.strip()[-100:]!r}, standard digest {rt.digest(f, pvb)}", "replay": {"entry": "hash", "fmt": f, "file": pv}})
         for f in CLI_FORMATS:
-            for nm in ("big.bin", "sparse_tail.bin", "sparse_all.bin"):
+            for nm in ("big.bin", "sparse_tail.bin", "sparse_all.bin", "clip_$SHOT.mov", "s/${SHOT}.txt"):
                 x = rt.run("hash", [os.path.join(r2, nm), "-h", f])
                 evals += 1
                 exp = f"{f} ({os.path.join(r2, nm)}) = {rt.digest(f, mtree[nm])}"
